@@ -946,7 +946,10 @@ fn on_retained_class(w: &mut World, conn: usize, idx: usize, raw: &[u8], pkt: &P
                     && r.epoch == w.epoch
                     && !r.invalidated
                     && unresolved(r)
-                    && r.tx_by_conn.get(&conn).copied().unwrap_or(0) > 0
+                    // sent on this connection - or on an earlier connection of the session this
+                    // one resumes and still unresolved: "has sent ... still unresolved" does not
+                    // end with the connection (C05 has them retransmitted first anyway)
+                    && (r.tx_by_conn.get(&conn).copied().unwrap_or(0) > 0 || (w.conns[conn].session_present && r.tx_by_conn.values().any(|n| *n > 0)))
             })
             .count();
         if inflight > rmax {
